@@ -45,6 +45,11 @@ instance : DecidablePred SpecNumeric := fun s => by unfold SpecNumeric; exact in
 instance : DecidablePred SpecFree := fun s => by unfold SpecFree; exact inferInstance
 instance : DecidablePred SpecVersion := fun s => by unfold SpecVersion; exact inferInstance
 
+/-- the nine documented known release types (the property's quantifier: "all nine known release types") -/
+def knownTypes : List Str :=
+  ["fast".toList, "ga".toList, "updates".toList, "updates-testing".toList, "eus".toList, "aus".toList,
+   "els".toList, "tus".toList, "e4s".toList]
+
 /-! ### the patterns (group-free) -/
 def lowerC : Cls := { ranges := [(97, 122)] }
 def alnumC : Cls := { ranges := [(97, 122), (48, 57)] }
